@@ -7,6 +7,7 @@
 (declare-datatypes ((Slice 0)) (((mkslice (sref Int) (soff Int) (slen Int) (scap Int)))))
 ; non-empty interfaces (error, parser.Node, reflect.Type, ...): dynamic type id + payload reference
 (declare-datatypes ((Iface 0)) (((mkiface (itype Int) (iref Int)))))
+(declare-datatypes ((Fuel 0)) (((LZ) (LS (lpred Fuel)))))
 (declare-sort Dec 0)
 (declare-sort F64 0)
 (declare-sort F32 0)
